@@ -93,6 +93,8 @@ wsum = z3.Function('wsum', Asg, TSeq, Int)            # sum of c_i over the true
 thaszero = z3.Function('thaszero', TSeq, Bool)        # some literal is 0
 tmaxabs = z3.Function('tmaxabs', TSeq, Int)           # max |literal| (0 if empty)
 tnonneg = z3.Function('tnonneg', TSeq, Bool)          # every coefficient >= 0
+tmpos = z3.Function('tmpos', TSeq, Int)               # a position of a literal of maximal absolute value (non-empty list)
+tzpos = z3.Function('tzpos', TSeq, Int)               # a position of a zero literal, if any
 Con = z3.Datatype('Con')
 Con.declare('mkcon', ('terms', TSeq), ('op', z3.StringSort()), ('value', Int))
 Con = Con.create()
@@ -116,7 +118,7 @@ def cmp_op(op, lhs, rhs):
 
 
 FUNCS = dict(tlen=tlen, tcoef=tcoef, tlit=tlit, tunit=tunit, tnegc=tnegc, tset=tset, wsum=wsum, thaszero=thaszero,
-             tmaxabs=tmaxabs, tnonneg=tnonneg, mkcon=mkcon, olen=olen, osnoc=osnoc, otake=otake, holds=holds,
+             tmaxabs=tmaxabs, tnonneg=tnonneg, tmpos=tmpos, tzpos=tzpos, mkcon=mkcon, olen=olen, osnoc=osnoc, otake=otake, holds=holds,
              osat=osat, omaxabs=omaxabs, ohaszero=ohaszero, onormal=onormal,
              ilen=ilen, iget=iget, inil=inil, isnoc=isnoc, iapp=iapp, ineg=ineg, haszero=haszero,
              maxof=maxof, minof=minof, maxabs=maxabs, lit_true=lit_true, count=count, ctrue=ctrue,
@@ -141,7 +143,8 @@ def b2i(b):
 
 
 # schemas used in VCs whose Lean proof is not (yet) in lemmas/: reported as ASSUMED LEMMAS in every evidence file
-ASSUMED_SCHEMAS = ['card2_store side condition: proved in Lean (CnfSem.card2_store) for FINITE pair sets only; that every edge set '
+ASSUMED_SCHEMAS = ['tmaxabs_witness (tmpos), thaszero_witness (tzpos), thaszero_of_get: added after the third Lean pass (same shape as the proved ISeq witnesses)',
+                   'card2_store side condition: proved in Lean (CnfSem.card2_store) for FINITE pair sets only; that every edge set '
                    'is finite (built from the empty set by finitely many add/remove) is not expressible in the VCs']
 
 # ---------------------------------------------------------------------------------
@@ -399,7 +402,14 @@ def _opb_on_terms(d):
                 # Opb.lean thaszero_set / tmaxabs_set (the replaced literal has the same absolute value in normalize_opb)
                 z3.Implies(z3.And(0 <= i, i < tlen(t), zabs(l) == zabs(tlit(t, i))),
                            z3.And(thaszero(n) == thaszero(t), tmaxabs(n) == tmaxabs(t)))]
+    for (t,) in d.get('tmaxabs', []):
+        # witness of the maximum (CnfSem: tmaxabs_witness), and empty case
+        out.append(z3.Implies(tlen(t) > 0, z3.And(0 <= tmpos(t), tmpos(t) < tlen(t), zabs(tlit(t, tmpos(t))) == tmaxabs(t))))
+        out.append(z3.Implies(tlen(t) == 0, tmaxabs(t) == 0))
+    for (t,) in d.get('thaszero', []):
+        out.append(z3.Implies(thaszero(t), z3.And(0 <= tzpos(t), tzpos(t) < tlen(t), tlit(t, tzpos(t)) == 0)))
     for (t, i) in d.get('tlit', []):
+        out.append(z3.Implies(z3.And(0 <= i, i < tlen(t), tlit(t, i) == 0), thaszero(t)))          # CnfSem: thaszero_of_get
         # Opb.lean tlit_ne_zero / tlit_le_maxabs
         out.append(z3.Implies(z3.And(0 <= i, i < tlen(t), z3.Not(thaszero(t))), tlit(t, i) != 0))
         out.append(z3.Implies(z3.And(0 <= i, i < tlen(t)), zabs(tlit(t, i)) <= tmaxabs(t)))
